@@ -123,12 +123,39 @@ func isZKind(k string) bool { return strings.HasPrefix(k, "z") && k != "znox" }
 
 func runC01(e *env, n int) {
 	r := e.r
+	// a seed-dependent walk through fixtures x paths (stride coprime with the period, so any
+	// window of cases spreads over both), kinds per path from a seed-dependent start
+	period := len(e.fx) * len(pathOrder)
+	start := r.Intn(period)
 	kindIdx := map[string]int{}
-	for i := 0; i < n; i++ {
-		f := e.fx[i%len(e.fx)]
-		path := pathOrder[(i/len(e.fx))%len(pathOrder)]
+	for _, p := range pathOrder {
+		kindIdx[p] = r.Intn(len(pathKinds[p]))
+	}
+	// regression cases of two repaired defects, in EVERY run: a batch entry with an unsupported
+	// compressor, data under the empty digest through ByteStream.Write (both forms), and the
+	// genuinely empty uploads that must stay accepted
+	fixed := []struct{ path, kind string }{{"batch", "unsupported"}, {"bs", "emptyclaim"}, {"bsz", "emptyclaim"}, {"bs", "empty"}, {"bsz", "empty"}}
+	f0 := e.fx[r.Intn(len(e.fx))]
+	for i := 0; i < len(fixed) && i < n; i++ {
+		sz := pickSize(r)
+		if fixed[i].kind == "empty" {
+			sz = 0
+		}
+		var u *ucase
+		if fixed[i].path == "batch" {
+			u = runBatch(f0, r, false, fixed[i].kind, sz)
+		} else {
+			u = runBS(f0, r, fixed[i].path == "bsz", fixed[i].kind, sz)
+		}
+		u.path, u.kind, u.n = fixed[i].path, fixed[i].kind, sz
+		judge(e, f0, u)
+	}
+	for i := len(fixed); i < n; i++ {
+		idx := (start + i*7) % period
+		f := e.fx[idx%len(e.fx)]
+		path := pathOrder[idx/len(e.fx)]
 		ks := pathKinds[path]
-		kind := ks[(kindIdx[path]+int(e.rep.Seed%7))%len(ks)]
+		kind := ks[kindIdx[path]%len(ks)]
 		kindIdx[path]++
 		sz := pickSize(r)
 		if kind == "empty" {
@@ -544,8 +571,8 @@ func runBS(f *fixture, r *Rng, z bool, kind string, sz int) *ucase {
 var maxChunk int // > 0: no chunk larger than this
 
 func runSplice(f *fixture, r *Rng, withDigest bool, kind string, sz int) *ucase {
-	if sz < 2 {
-		sz = 2 + r.Intn(50)
+	if sz < 4 {
+		sz = 4 + r.Intn(50)
 	}
 	nch := 2 + r.Intn(2)
 	if kind == "one" || sz < nch {
@@ -575,6 +602,7 @@ func runSplice(f *fixture, r *Rng, withDigest bool, kind string, sz int) *ucase 
 		o += c
 	}
 	u := &ucase{decl: dg{whole.hash, int64(sz)}}
+	u.preDup = nch == 1 // a single chunk IS the blob: it is present once the chunk is uploaded
 	var pre []string // model ops for the preparatory uploads
 	var preObs []string
 	upload := func(b *blob) {
